@@ -83,6 +83,8 @@ func c03Pool() []poolDef {
 		tok("AS", `a+`), tok("AS2", `aa*`), tok("AB", `ab*`), tok("AC", `ac*`), tok("ABS", `(a|b)*abb`), tok("AOPT", `ab?c?`),
 		tok("PLUSES", `\++`), tok("EQ", `==?`), tok("ANYQ", `"[^"]*"`), tok("STR", `"([a-z]|\\")*"`),
 		tok("SLC", `\x2F\x2F[a-z ]*`), tok("DOT", `.`), tok("NOTA", `[^a]`), tok("I_STAR", `i[a-z]*`), tok("IF_OR_IN", `if|in`), tok("EMPTYISH", `a?b?c`),
+		tok("N_DIG", `[0-9]*`), tok("N_LOW", `[a-z]*`), tok("N_SIGN", `-?`), tok("N_SP", `\x20*`), tok("N_AB", `(ab)*`),
+		tok("A_IF", `^if`), tok("A_LOOP", `^loop`), tok("A_ABD", `ab$`), tok("A_BOTH", `^while$`), tok("A_ID", `^[a-z]+$`), tok("PLAIN", `begin`), lit("loop"), lit("begin"),
 		tok("WSP", `[ \x09]+`), tok("ANY2", `..`), tok("DIG", `\d`), tok("WORDC", `\w+`), tok("ALNUM", `[[:alnum:]]+`),
 		pre("P_ID", "$ID"), pre("P_NUM", "$NUMBER"), pre("P_WS", "$WS"), pre("P_DIGIT", "$DIGIT"), pre("P_LETTER", "$LETTER"), pre("P_STRING", "$STRING"), pre("P_COMMENT", "$COMMENT"),
 	}
